@@ -129,13 +129,15 @@ class UsbDriver(CRTPDriver):
         """ Send the packet pk though the link """
         # if self.out_queue.full():
         #    self.out_queue.get()
-        if (self.cfusb is None):
+        # close() can run at any time on another thread
+        cfusb = self.cfusb
+        if (cfusb is None):
             return
 
         try:
             dataOut = (pk.header,)
             dataOut += pk.datat
-            self.cfusb.send_packet(dataOut)
+            cfusb.send_packet(dataOut)
         except queue.Full:
             if self.link_error_callback:
                 self.link_error_callback(
